@@ -396,6 +396,9 @@ func (cr *ChunkReader) parseChunkHeaderBytes(header []byte, l *int) (int64, stri
 	if err != nil {
 		return cr.handleRdrErr(err, header)
 	}
+	if !isHexDigits(chunkSizeStr) {
+		return 0, "", 0, errInvalidChunkFormat
+	}
 	chunkSize, err := strconv.ParseInt(chunkSizeStr, 16, 64)
 	if err != nil {
 		return 0, "", 0, errInvalidChunkFormat
@@ -540,4 +543,19 @@ func readAndTrim(r *bufio.Reader, delim byte) (string, error) {
 	}
 
 	return strings.TrimSuffix(str, string(delim)), nil
+}
+
+// isHexDigits reports whether s is a non-empty run of hex digits: a chunk
+// size carries neither a sign nor blanks (strconv.ParseInt accepts a sign)
+func isHexDigits(s string) bool {
+	if s == "" {
+		return false
+	}
+	for i := 0; i < len(s); i++ {
+		c := s[i]
+		if !(c >= '0' && c <= '9' || c >= 'a' && c <= 'f' || c >= 'A' && c <= 'F') {
+			return false
+		}
+	}
+	return true
 }
